@@ -32,7 +32,12 @@ def gen(rng, tier):
     sc = {'k': k, 'size': size, 'ending': rng.choice(['return', 'return', 'raise', 'exit0', 'exit3']),
           'parent_level': rng.choice(['DEBUG', 'INFO', 'WARNING']),
           'levels': [rng.choice(['DEBUG', 'INFO', 'WARNING', 'ERROR']) for _ in range(5)],
-          'gap': rng.choice([0, 0, 0, 0.0001]), 'tail_sleep': rng.choice([0, 0, 0.001]), 'accessor': rng.choice(['join', 'result', 'join'])}
+          'gap': rng.choice([0, 0, 0, 0.0001]), 'tail_sleep': rng.choice([0, 0, 0.001]), 'accessor': rng.choice(['join', 'result', 'join']),
+          'via': rng.choice(['process', 'process', 'process', 'servlet', 'pool'])}
+    if sc['via'] != 'process':
+        sc['ending'] = 'return'
+        sc['k'] = min(sc['k'], 300)
+        sc['ncalls'] = rng.choice([1, 2, 3])
     cfg = swarm(rng, racy=0.1, line=0.1, strategies=('random', 'weighted', 'weighted', 'weighted', 'pct', 'sticky'),
                 max_time=400.0, max_steps=3_000_000, pipe_cap=rng.choice([4096, 65536]))
     return {'scenario': sc, 'sim': cfg}
@@ -53,7 +58,7 @@ def shrink(sc):
 
 
 def tags(sim, sc, obs):
-    return ['k:%d' % sc['k'], 'size:%d' % sc['size'], 'ending:' + sc['ending'], 'pipe:%d' % sim.cfg.get('pipe_cap', 0),
+    return ['via:' + sc.get('via', 'process'), 'k:%d' % sc['k'], 'size:%d' % sc['size'], 'ending:' + sc['ending'], 'pipe:%d' % sim.cfg.get('pipe_cap', 0),
             'volume-vs-pipe:' + ('exceeds' if sc['k'] * (sc['size'] + 400) > sim.cfg.get('pipe_cap', 65536) else 'fits')]
 
 
@@ -90,7 +95,91 @@ class Rec(logging.Handler):
             self.got.append(r.getMessage())
 
 
+def pool_fn(sc, call_idx):
+    emit(sc, call_idx)
+    return call_idx
+
+
+def emit(sc, call_idx=0):
+    from sim.osproc import proc_logging
+    lg = proc_logging.getLogger('harness.child')
+    pad = 'x' * sc['size']
+    for i in range(sc['k']):
+        lv = getattr(logging, sc['levels'][i % len(sc['levels'])])
+        lg.log(lv, 'rec %d.%d %s', call_idx, i, pad)
+        if sc['gap']:
+            time.sleep(sc['gap'])
+
+
+_WORKER = {}
+
+
+def log_worker_cls():
+    if 'c' not in _WORKER:
+        from mpservice.mpserver import Worker
+
+        class LogWorker(Worker):
+            def __init__(self, *, sc, **kw):
+                super().__init__(**kw)
+                self.sc = sc
+
+            def call(self, x):
+                emit(self.sc, x)
+                return x
+
+        LogWorker.__qualname__ = 'LogWorker'
+        globals()['LogWorker'] = LogWorker
+        _WORKER['c'] = LogWorker
+    return _WORKER['c']
+
+
+def run_indirect(sim, sc):
+    """records logged by a ProcessServlet worker / a process-pool worker (both are mpservice Process objects underneath)"""
+    root = logging.getLogger()
+    rec = Rec()
+    root.addHandler(rec)
+    old_level = root.level
+    root.setLevel(getattr(logging, sc['parent_level']))
+    ncalls = sc.get('ncalls', 1)
+    try:
+        if sc['via'] == 'servlet':
+            from mpservice.mpserver import Server, ProcessServlet
+            with Server(ProcessServlet(log_worker_cls(), sc=sc), capacity=4) as server:
+                for c in range(ncalls):
+                    if server.call(c, timeout=300) != c:
+                        sim.violation('outcome:wrong-result', {})
+        else:
+            from mpservice.concurrent.futures import ProcessPoolExecutor
+            with ProcessPoolExecutor(1) as pool:
+                for c in range(ncalls):
+                    if pool.submit(pool_fn, sc, c, loud_exception=False).result(timeout=300) != c:
+                        sim.violation('outcome:wrong-result', {})
+    except Exception as e:
+        sim.violation('outcome:raised', {'exc': repr(e)[:300]})
+        return {}
+    time.sleep(1.0)
+    root.setLevel(old_level)
+    root.removeHandler(rec)
+    plevel = getattr(logging, sc['parent_level'])
+    pad = 'x' * sc['size']
+    want = ['rec %d.%d %s' % (c, i, pad) for c in range(ncalls) for i in range(sc['k']) if getattr(logging, sc['levels'][i % len(sc['levels'])]) >= plevel]
+    got = rec.got
+    if got != want:
+        if len(got) < len(want) and got == want[:len(got)]:
+            sig = 'records:lost-at-the-end'
+        elif len(set(got)) != len(got):
+            sig = 'records:duplicated'
+        elif sorted(got) == sorted(want):
+            sig = 'records:out-of-order'
+        else:
+            sig = 'records:lost'
+        sim.violation(sig + ':via-' + sc['via'], {'got_n': len(got), 'want_n': len(want)})
+    return {'n': len(got)}
+
+
 def run(sim, sc):
+    if sc.get('via', 'process') != 'process':
+        return run_indirect(sim, sc)
     from mpservice.multiprocessing import Process
     root = logging.getLogger()
     rec = Rec()
